@@ -3,7 +3,7 @@
      MISMATCH <line> // model: <value>     model and implementation disagree on this concrete operation
      PROPFAIL <line> // <why>              the property's oracle (evaluated with the model's own `make`) fails on
                                            data the implementation returned (factory defaults)
-   and finally MODEL-DONE checked=<n> mismatches=<m> ub=<k>.
+   and finally MODEL-DONE checked=<n> mismatches=<m> ub=<k> (k = reads the model marks undefined and the harness skipped).
    Integers travel as int64 decimal strings, doubles as C %a strings, strings hex-encoded. *)
 let mism = ref 0
 let total = ref 0
@@ -171,7 +171,7 @@ let handle_set line (lhs : string list) (rhs : string) (s : storage) : storage =
     let impl = if trim st = "-" then s else fst (parse_st (words st)) in
     incr total;
     (match step s a with
-     | UB -> incr ubs; if not ubflag then report line "UB (conversion undefined in the model)"; impl
+     | UB -> report line "UB in the model (unreachable since fix 0c6dfeb: proved in C19_nonconvertible_rejected)"; impl
      | r ->
        if ubflag then report line "defined in the model, harness flags undefined behaviour";
        let (mflag, mst) = (match r with Ok s' -> ("OK", s') | _ -> ("THROW", s)) in
@@ -239,7 +239,7 @@ let () =
                 incr total;
                 check_split line setop;
                 (match cassign c nm a with
-                 | CUB -> incr ubs; resync := true; if not ubflag then report line "UB (conversion undefined in the model)"
+                 | CUB -> resync := true; report line "UB in the model (unreachable since fix 0c6dfeb)"
                  | r ->
                    if ubflag then report line "defined in the model, harness flags undefined behaviour";
                    let (mflag, mc) = (match r with COk c' -> ("OK", c') | _ -> ("THROW", c)) in
